@@ -145,6 +145,22 @@ PLANS = {
         "assumptions": COMMON_ASSUMPTIONS + ["NFKC and case tables of unicode-normalization / std are the trusted base",
                                              "character classes for the yomigana reference come from CharacterCategory (checked by C17)"],
     },
+    "C16": lambda tier: {
+        "level": "exploration",
+        "stages": [main_stage(40, 300, tier, death_is_violation=True)],
+        "require": ["sentences_checked", "texts_with_several_sentences", "small_window_runs", "texts_longer_than_the_window", "probe_scenarios"],
+        "rule": "seeded lexicons (ordinary words, words containing / ending with terminators such as 'モーニング娘。', 'な。な', 'Yahoo!', "
+                "one-character terminator entries '。' '！' '?', words made of closers) x seeded texts (terminator runs, periods in numbers and "
+                "itemisation headers, nested / unbalanced brackets of 12 kinds, quote particles after terminators, <br> runs of mixed case, "
+                "middle-dot runs, commas, hostile characters, texts of >9000 chars) x {default window, window larger than the text, random "
+                "small window 1..len} x {with, without dictionary checker}; oracles P1 partition + bounded iteration, P2 terminator at the "
+                "end of every non-last sentence, P3 untyped bracket level 0 at the break, P4 no break inside/at the end of a multi-character "
+                "dictionary word containing the terminator, P5 conservative converse (missed break) judged only when the window saw the "
+                "terminator. distinct_nontrivial = distinct (text,limit,checker) split into >=2 sentences",
+        "assumptions": COMMON_ASSUMPTIONS + ["P5 demands a break only where every veto of the statement is clearly absent (DESIGN.md 6/C16)",
+                                             "known findings D12 (window without boundary) and D13 (back-track limit) only through their probes; "
+                                             "small-window / long-text cases that fall into the D12 region are counted, not judged"],
+    },
 }
 
 
